@@ -306,9 +306,21 @@ def _unexpected_exception(ob, params, ctx, exc, st):
     (the obligations cannot even be evaluated); otherwise it is a harness error."""
     model = ctx.model
     if model is None:
+        # the path got here through branches whose feasibility query timed out ("unknown" counts as feasible while
+        # exploring): decide it now with the full timeout, then with nlsat, before believing the exception
+        v = _decide_part(ctx, z3.BoolVal(True))
+        if v == "unsat":
+            st["infeasible"] += 1
+            return True
+        if v != "sat":
+            st["unknown_final"] += 1
+            st.setdefault("unknown_detail", []).append({"params": _jsonable(params), "exception_on_undecided_path":
+                                                        f"{type(exc).__name__}: {exc}"[:200]})
+            return True
         r = ctx.check()
         if r != z3.sat:
-            return False
+            st["unknown_final"] += 1
+            return True
         model = ctx.solver.model()
     inputs = symx.model_inputs(ctx, model)
     conc, why = run_concrete(ob, params, inputs)
@@ -448,6 +460,9 @@ def _finish_path(ob, params, pid, ctx, out, st, listed):
                 ok = False
                 n_feasible = None
                 base = model
+                # a disagreement only counts at a point that satisfies the path condition with a margin: on a decision
+                # boundary the exact-real model and a run in doubles may legitimately take different branches
+                interior_mismatch = _is_interior(ctx, model)
                 # first: a model that satisfies every top-level inequality of the path condition with a margin
                 for eps in (1e-3, 1e-6):
                     cand = _interior_model(ctx, eps)
@@ -458,6 +473,7 @@ def _finish_path(ob, params, pid, ctx, out, st, listed):
                     if conc2 is not None and obs_equal(norm_obs(out.obs, cand), conc2["obs"]):
                         ok = True
                         break
+                    interior_mismatch = interior_mismatch or (conc2 is not None and _is_interior(ctx, cand))
                 for attempt in range(0 if ok else 4):
                     alt = _alt_model(ctx, base, attempt)
                     if alt is None:
@@ -471,6 +487,7 @@ def _finish_path(ob, params, pid, ctx, out, st, listed):
                         if conc2 is not None and obs_equal(norm_obs(out.obs, cand), conc2["obs"]):
                             ok = True
                             break
+                        interior_mismatch = interior_mismatch or (conc2 is not None and _is_interior(ctx, cand))
                     if ok:
                         break
                     base = alt
@@ -491,9 +508,10 @@ def _finish_path(ob, params, pid, ctx, out, st, listed):
                         if conc2 is not None and obs_equal(norm_obs(out.obs, cand), conc2["obs"]):
                             ok = True
                             break
+                        interior_mismatch = interior_mismatch or (conc2 is not None and _is_interior(ctx, cand))
                 if ok:
                     st["witness_ok"] += 1
-                elif n_feasible == 0:
+                elif n_feasible == 0 or not interior_mismatch:
                     # the path region has empty interior around its models (ties / exact equalities): every nearby
                     # point leaves it, so a run in doubles cannot be expected to follow this path
                     st["witness_skipped"] += 1
@@ -516,7 +534,7 @@ def _decide_part(ctx, q):
     q = z3.simplify(q, som=True)
     if z3.is_false(q):
         return "unsat"
-    r = ctx.check(q)
+    r = ctx.check() if z3.is_true(q) else ctx.check(q)
     if r == z3.unknown:
         t0 = time.time()
         s2 = z3.Tactic("qfnra-nlsat").solver()
@@ -550,19 +568,22 @@ def _alt_model(ctx, model, attempt):
         ctx.solver.pop()
 
 
-def _strengthen(a, eps):
-    """a top-level (possibly negated) arithmetic comparison, tightened by eps; anything else unchanged"""
-    neg = False
+def _strengthen(a, eps, neg=False):
+    """`a` with every arithmetic comparison in a monotone position (through And / Or / Not) tightened by eps; anything
+    else unchanged.  A model of the result satisfies `a` with a margin."""
     t = a
     if z3.is_not(t):
-        neg, t = True, t.arg(0)
+        return _strengthen(t.arg(0), eps, not neg)
+    if z3.is_and(t) or z3.is_or(t):
+        kids = [_strengthen(c, eps, neg) for c in t.children()]
+        return (z3.Or if (z3.is_and(t) == neg) else z3.And)(*kids)
     if not (z3.is_app(t) and t.num_args() == 2 and z3.is_arith(t.arg(0))):
-        return a
+        return z3.Not(a) if neg else a
     x, y = t.arg(0), t.arg(1)
     if z3.is_int(x) and z3.is_int(y):
-        return a
+        return z3.Not(a) if neg else a
     k = t.decl().kind()
-    e = z3.RealVal(str(Fraction(eps).limit_denominator(10**9)))
+    e = z3.RealVal(str(Fraction(eps).limit_denominator(10**12)))
     lt, le, gt, ge = z3.Z3_OP_LT, z3.Z3_OP_LE, z3.Z3_OP_GT, z3.Z3_OP_GE
     if (k in (lt, le) and not neg) or (k in (gt, ge) and neg):
         return x + e <= y
@@ -570,23 +591,38 @@ def _strengthen(a, eps):
         return x >= y + e
     if k == z3.Z3_OP_DISTINCT or (k == z3.Z3_OP_EQ and neg):
         return z3.Or(x + e <= y, x >= y + e)
-    return a
+    return z3.Not(a) if neg else a
+
+
+def _is_interior(ctx, model, eps=1e-9):
+    """does `model` satisfy every comparison of the path condition with a margin (so that a run in doubles cannot
+    legitimately take another branch)?"""
+    try:
+        for a in ctx.solver.assertions():
+            if not z3.is_true(model.eval(_strengthen(a, eps), model_completion=True)):
+                return False
+        return True
+    except z3.Z3Exception:
+        return False
 
 
 def _interior_model(ctx, eps):
-    """A model of the current path in which every top-level inequality holds with margin eps (None if there is none)."""
-    s2 = z3.Solver()
-    s2.set("timeout", 5000)
-    for a in ctx.solver.assertions():
-        if z3.is_and(a):
-            for c in a.children():
-                s2.add(_strengthen(c, eps))
-        else:
-            s2.add(_strengthen(a, eps))
+    """A model of the current path in which every inequality holds with margin eps (None if there is none / undecided)."""
     t0 = time.time()
-    r = s2.check()
+    r, s2 = z3.unknown, None
+    for ms, mk in ((5000, z3.Solver), (20000, lambda: z3.Tactic("qfnra-nlsat").solver())):
+        s2 = mk()
+        s2.set("timeout", ms)
+        for a in ctx.solver.assertions():
+            s2.add(_strengthen(a, eps))
+        try:
+            r = s2.check()
+        except z3.Z3Exception:
+            r = z3.unknown
+        ctx.n_checks += 1
+        if r != z3.unknown:
+            break
     ctx.t_solver += time.time() - t0
-    ctx.n_checks += 1
     return s2.model() if r == z3.sat else None
 
 
